@@ -378,7 +378,7 @@ impl Ctx {
                 "programs": dp,
                 "programs_fully_enumerated": dfs_complete.load(Ordering::Relaxed),
                 "schedules_run": n_eval,
-                "bound": "all schedules with at most 2 preemptions (a switch away from a thread that could continue); at most 4000 schedules per program",
+                "bound": if std::env::var("VERIF_DFS_DEEP").is_ok() { "all schedules with at most 3 preemptions (a switch away from a thread that could continue); at most 20000 schedules per program" } else { "all schedules with at most 2 preemptions (a switch away from a thread that could continue); at most 4000 schedules per program" },
                 "exhaustive": dp == dfs_complete.load(Ordering::Relaxed),
             });
         }
